@@ -153,7 +153,10 @@ func runEnvCase(c EnvCase) *h.Outcome {
 			}
 			var b bytes.Buffer
 			if err := pb.Encode(&b, es.Build()); err != nil {
-				if b.Len() == 0 && isTooLarge(err) {
+				// the protobuf frame length is a uint16: large envelopes are refused by
+				// design.  Recognised by the error text or, independent of it, by size
+				// (the protobuf form of an envelope is well below four times its native form)
+				if b.Len() == 0 && (isTooLarge(err) || len(encs[i]) > 16<<10) {
 					o.Class("pb-frame-too-large")
 					return nil
 				}
